@@ -22,7 +22,7 @@ func main() {
 		if !c.Want(id.String()) {
 			continue
 		}
-		bk.Kits[id].Run["c02"](c, cases)
+		bk.Kits[id].Run["c02"](c, bk.CasesFor(id, c.Quick(), cases, 5))
 	}
 	c.Finish()
 }
